@@ -146,6 +146,71 @@ def template_parts(e: ast.AST) -> T.List[ast.AST]:
     return [e]
 
 
+def fold_str_names(mod: Module, parts: T.List[ast.AST]) -> T.List[ast.AST]:
+    """Template pieces that are names of module-level string constants become the constants they name."""
+    out: T.List[ast.AST] = []
+    for p_ in parts:
+        if isinstance(p_, ast.Name) and mod.has_assign(p_.id):
+            try:
+                v = fold_expr(mod.repo, mod, p_)
+            except Undecided:
+                v = None
+            if isinstance(v, str):
+                out.append(ast.Constant(value=v))
+                continue
+        out.append(p_)
+    return out
+
+
+def const_str(mod: Module, e: ast.AST) -> T.Optional[str]:
+    if isinstance(e, ast.Constant) and isinstance(e.value, str):
+        return e.value
+    if isinstance(e, (ast.Name, ast.Attribute)):
+        try:
+            v = fold_expr(mod.repo, mod, e)
+        except Exception:
+            return None
+        return v if isinstance(v, str) else None
+    return None
+
+
+def inline_trivial_helpers(mod: Module, fn: ast.FunctionDef, cls: T.Optional[str]) -> ast.FunctionDef:
+    """Source-to-source: calls of helpers of the same class / module whose body is a single `return <expr>` are replaced by that
+    expression with the arguments substituted (bound by signature).  The copy keeps line numbers for reports."""
+    class Inl(ast.NodeTransformer):
+        def __init__(self) -> None:
+            self.depth = 0
+
+        def visit_Call(self, c: ast.Call) -> ast.AST:
+            self.generic_visit(c)
+            cn = attr_chain(c.func) or ''
+            parts = cn.split('.')
+            q = None
+            if len(parts) == 2 and parts[0] in ('self', 'cls', cls or '') and cls and mod.has_func(f'{cls}.{parts[1]}'):
+                q = f'{cls}.{parts[1]}'
+            elif len(parts) == 1 and mod.has_func(parts[0]) and '.' not in parts[0]:
+                q = parts[0]
+            if q is None or self.depth > 2:
+                return c
+            h = mod.func(q)
+            body = [st for st in h.body if not (isinstance(st, ast.Expr) and isinstance(st.value, ast.Constant))]
+            if h is fn or len(body) != 1 or not isinstance(body[0], ast.Return) or body[0].value is None or not isinstance(h, ast.FunctionDef):
+                return c
+            if any(isinstance(n, (ast.Lambda,)) and any(a.arg in [x.arg for x in h.args.args] for a in n.args.args) for n in ast.walk(body[0].value)):
+                return c
+            b = bind_args(c, h, '.' in q)
+            hp = [a.arg for a in h.args.args if a.arg not in ('self', 'cls')]
+            if set(hp) - set(b):
+                return c       # defaults in play: keep the call
+            self.depth += 1
+            new_e = _Subst({k: v for k, v in b.items()}).visit(copy.deepcopy(body[0].value))
+            self.depth -= 1
+            return ast.copy_location(new_e, c)
+    out = Inl().visit(copy.deepcopy(fn))
+    ast.fix_missing_locations(out)
+    return T.cast(ast.FunctionDef, out)
+
+
 def bind_args(call: ast.Call, fn: ast.FunctionDef, is_method: bool) -> T.Dict[str, ast.AST]:
     """Call arguments bound to the callee's parameters by signature (positional index or keyword name);
     `obj.m(a)` and `Class.m(obj, a)` / static methods are told apart by the decorator and the receiver."""
@@ -233,6 +298,8 @@ def lexer_line_model(ctx: RuleCtx) -> T.Tuple[T.Set[str], int, int, T.List[str]]
         raise Undecided('Lexer.lex: no Token(...) construction found')
     sets: T.Set[str] = set()
     n_inc = 0
+    guard_of: T.Dict[int, ast.If] = {}
+    rebase_checks: T.List[T.Tuple[ast.AugAssign, ast.If]] = []
     for st in walk_no_nested(fn):
         if isinstance(st, ast.Assign) and len(st.targets) == 1 and norm(st.targets[0]) == line_var:
             if isinstance(st.value, ast.Constant) and isinstance(st.value.value, int) and first_line is None:
@@ -249,17 +316,58 @@ def lexer_line_model(ctx: RuleCtx) -> T.Tuple[T.Set[str], int, int, T.List[str]]
             par = pm[cur]
             if isinstance(par, ast.If) and cur in par.body and 'tid' in {n.id for n in ast.walk(par.test) if isinstance(n, ast.Name)}:
                 trig = _trigger_chars(ctx, mod, fn, par, st)
+                guard_of[id(st)] = par
             cur = par
         if trig is None:
             raise Undecided(f'Lexer.lex: cannot tell which characters trigger `{norm(st)}`')
         evidence.append(f'{norm(st)} is triggered by {sorted(trig)!r}')
         sets |= trig
         # the line start must be re-based where the line counter moves (column 0 = first character after the terminator)
+        rebase_checks.append((st, guard_of[id(st)]))
     if first_line is None:
         raise Undecided('Lexer.lex: initial line number not found')
     if n_inc < 3:
         raise Undecided(f'Lexer.lex: only {n_inc} line counter increments found (eol, multi-line strings, continuation expected)')
     first_col = 0   # col = loc - line_start with line_start = position right after the terminator
+    # ---- re-basing of the line start: col = <pos> - <start>; wherever the line counter moves, <start> must become the position of the
+    # first character after the last terminator of the token
+    coldef = [n.value for n in walk_no_nested(fn) if isinstance(n, ast.Assign) and len(n.targets) == 1 and isinstance(n.value, ast.BinOp)
+              and isinstance(n.value.op, ast.Sub) and isinstance(n.value.left, ast.Name) and isinstance(n.value.right, ast.Name)
+              and any(isinstance(c_, ast.Call) and norm(c_.func) == 'Token' and len(c_.args) == 7 and norm(c_.args[4]) == norm(n.targets[0]) for c_ in walk_no_nested(fn))]
+    if len(coldef) != 1:
+        raise Undecided('Lexer.lex: column definition <pos> - <line start> not found')
+    posv, startv = coldef[0].left.id, coldef[0].right.id  # type: ignore[attr-defined]
+    for inc, guard in rebase_checks:
+        block = next((b_ for n_ in ast.walk(guard) for f_ in ('body', 'orelse') for b_ in [getattr(n_, f_, None)] if isinstance(b_, list) and inc in b_), None)
+        if block is None:
+            raise Undecided('Lexer.lex: block of a line counter increment not found')
+        rb = [x for x in block if isinstance(x, ast.Assign) and len(x.targets) == 1 and norm(x.targets[0]) == startv]
+        if len(rb) != 1:
+            raise Undecided(f'Lexer.lex: the line start is not re-based exactly once next to `{norm(inc)}`')
+        coef, const = linear(rb[0].value)
+        if isinstance(inc.value, ast.Constant):
+            want_c, want_k, why = {posv: 1}, 0, 'the token ends with its terminator'
+        else:
+            lin, _k = linear(inc.value)
+            nm = next(iter(lin))[4:-1]           # len(<lines>) - 1
+            # characters cut off the end of the token text before it was split are not part of the last piece
+            cut = 0
+            splits = [x for b_ in guard.body for x in ast.walk(b_) if isinstance(x, ast.Assign) and norm(x.targets[0]) == nm]
+            strips = [x for b_ in guard.body for x in ast.walk(b_) if isinstance(x, ast.Assign) and len(x.targets) == 1 and isinstance(x.value, ast.Subscript)
+                      and norm(x.value.value) == norm(x.targets[0]) and isinstance(x.value.slice, ast.Slice)]
+            if len(splits) != 1 or len(strips) > 1:
+                raise Undecided(f'Lexer.lex: cannot relate `{norm(rb[0])}` to the text that was split')
+            if strips and (strips[0].lineno, strips[0].col_offset) < (splits[0].lineno, splits[0].col_offset) \
+                    and norm(strips[0].targets[0]) in {n_.id for n_ in ast.walk(splits[0].value) if isinstance(n_, ast.Name)}:
+                up = strips[0].value.slice.upper  # type: ignore[union-attr]
+                if not (isinstance(up, ast.UnaryOp) and isinstance(up.op, ast.USub) and isinstance(up.operand, ast.Constant)):
+                    raise Undecided(f'Lexer.lex: `{norm(strips[0])}` does not cut a constant number of characters')
+                cut = up.operand.value
+            want_c, want_k, why = {posv: 1, f'len({nm}[-1])': -1}, -cut, f'the last piece of the split text plus the {cut} character(s) cut off its end lie between the last terminator and the end of the token'
+        ctx.require(coef == want_c and const == want_k, f'Lexer.lex: next to `{norm(inc)}` the line start becomes {norm(rb[0].value)}', mod, 'Lexer.lex', rb[0],
+                    f'`{norm(rb[0])}` next to `{norm(inc)}`: {why}, so the line start must be '
+                    + ' '.join(f'{"+" if v > 0 else "-"} {k}' for k, v in want_c.items()).lstrip('+ ') + (f' - {-want_k}' if want_k else '')
+                    + ': columns of the tokens that follow on that line are shifted, the rewriter splices at the wrong offset', rb[0])
     return sets, first_line, first_col, evidence
 
 
@@ -307,6 +415,9 @@ def _trigger_chars(ctx: RuleCtx, mod: Module, fn: ast.AST, guard: ast.If, inc: a
                     and len(defs[0].args) == 1 and isinstance(defs[0].args[0], ast.Constant) and isinstance(defs[0].args[0].value, str):
                 out.add(defs[0].args[0].value)
                 continue
+            if len(defs) == 1 and isinstance(defs[0], ast.Call) and isinstance(defs[0].func, ast.Attribute) and defs[0].func.attr == 'splitlines':
+                out |= set(UNIVERSAL)       # the lexer would then count every str.splitlines() boundary
+                continue
         raise Undecided(f'Lexer.lex: cannot interpret `{norm(inc)}` for token {tid}')
     return out
 
@@ -353,6 +464,80 @@ def _is_raw_store(st: ast.AST) -> bool:
         and isinstance(st.targets[0].slice, ast.Constant) and st.targets[0].slice.value == 'raw'
 
 
+def _split_kind(src: ast.AST, rname: str, qn: str) -> T.Tuple[T.Set[str], T.Optional[int]]:
+    """(line boundaries, length of the terminator that is missing from each piece; None: lost) of <text>.split / splitlines."""
+    if not (isinstance(src, ast.Call) and isinstance(src.func, ast.Attribute) and norm(src.func.value) == rname):
+        raise Undecided(f'{qn}: the lines come from {short(src)}, not from a split of the text that is spliced ({rname})')
+    how = src.func.attr
+    if how == 'splitlines':
+        keep = (src.args[0] if src.args else kwarg(src, 'keepends'))
+        if keep is not None and not isinstance(keep, ast.Constant):
+            raise Undecided('splitlines(keepends) not constant')
+        return set(UNIVERSAL), (0 if keep is not None and keep.value else None)
+    if how == 'split' and len(src.args) == 1 and isinstance(src.args[0], ast.Constant) and isinstance(src.args[0].value, str):
+        return {src.args[0].value}, len(src.args[0].value)
+    raise Undecided(f'{qn}: lines are produced by {short(src)}')
+
+
+def _line_table_prefix_sums(ctx: RuleCtx, mod: Module, scope: ast.AST, tname: str, rname: str, qn: str, term: T.Set[str]) -> None:
+    """The table written as prefix sums: [0, *accumulate(len(l)+k for l in lines[:-1])], list(accumulate([0] + lengths[:-1])),
+    list(accumulate(..., initial=0)) - same obligation as the loop form: start 0, advance len(line) + terminator length."""
+    defs: T.Dict[str, T.List[ast.AST]] = {}
+    for n in ast.walk(scope):
+        if isinstance(n, ast.Assign) and len(n.targets) == 1 and isinstance(n.targets[0], ast.Name):
+            defs.setdefault(n.targets[0].id, []).append(n.value)
+        elif isinstance(n, ast.AnnAssign) and isinstance(n.target, ast.Name) and n.value is not None:
+            defs.setdefault(n.target.id, []).append(n.value)
+
+    def res(e: ast.AST) -> ast.AST:
+        k = 0
+        while isinstance(e, ast.Name) and len(defs.get(e.id, [])) == 1 and k < 4:
+            e, k = defs[e.id][0], k + 1
+        return e
+
+    def drop_last(e: ast.AST) -> ast.AST:
+        e = res(e)
+        if isinstance(e, ast.Subscript) and isinstance(e.slice, ast.Slice) and e.slice.lower is None and e.slice.step is None \
+                and isinstance(e.slice.upper, ast.UnaryOp) and isinstance(e.slice.upper.op, ast.USub) and norm(e.slice.upper.operand) == '1':
+            return res(e.value)       # the offset after the last line is never used
+        return e
+    if len(defs.get(tname, [])) != 1:
+        raise Undecided(f'{qn}: {len(defs.get(tname, []))} definitions of the line table and no loop that fills it')
+    e = defs[tname][0]
+    has_zero = False
+    if isinstance(e, ast.Call) and norm(e.func) == 'list' and len(e.args) == 1:
+        e = e.args[0]
+    if isinstance(e, ast.List) and len(e.elts) == 2 and isinstance(e.elts[0], ast.Constant) and e.elts[0].value == 0 and isinstance(e.elts[1], ast.Starred):
+        has_zero, e = True, e.elts[1].value
+    if not (isinstance(e, ast.Call) and (attr_chain(e.func) or '').split('.')[-1] == 'accumulate' and e.args and len(e.args) == 1):
+        raise Undecided(f'{qn}: the line table {short(defs[tname][0])} is neither filled by a loop nor a prefix sum')
+    ini = kwarg(e, 'initial')
+    if ini is not None:
+        if not (isinstance(ini, ast.Constant) and ini.value == 0):
+            raise Undecided(f'{qn}: accumulate(initial={short(ini)})')
+        has_zero = True
+    arg = res(e.args[0])
+    if isinstance(arg, ast.BinOp) and isinstance(arg.op, ast.Add) and isinstance(arg.left, ast.List) and len(arg.left.elts) == 1 \
+            and isinstance(arg.left.elts[0], ast.Constant) and arg.left.elts[0].value == 0:
+        has_zero, arg = True, arg.right
+    arg = drop_last(arg)
+    if not (isinstance(arg, (ast.GeneratorExp, ast.ListComp)) and len(arg.generators) == 1 and not arg.generators[0].ifs):
+        raise Undecided(f'{qn}: the summed line lengths {short(arg)} are not a comprehension over the lines')
+    lv = norm(arg.generators[0].target)
+    src = drop_last(arg.generators[0].iter)
+    seps, per_line = _split_kind(src, rname, qn)
+    coef, const = linear(arg.elt)
+    ok_acc = has_zero and coef == {f'len({lv})': 1} and per_line is not None and const == per_line
+    ctx.require(ok_acc, f'line table is the prefix sums of len(line) + {per_line}, starting at 0', mod, qn, defs[tname][0],
+                f'line table built from {short(src)} as {short(defs[tname][0], 120)}: starts at {"0" if has_zero else "the first length"}, advances by {norm(arg.elt)}; '
+                f'with this split the offset of the next line is offset + len(line) + {per_line if per_line is not None else "<length of the terminator, which is lost>"}', defs[tname][0])
+    diff = sorted(seps ^ term, key=lambda c: (c != '\x0c', c))
+    ctx.require(not diff, f'line table and lexer agree on the line terminators {sorted(term)!r}', mod, qn, src,
+                f'the line table is built with {short(src)} (line boundaries {sorted(seps)!r}) while Lexer.lex advances lineno only on {sorted(term)!r}: '
+                f'a file containing {diff[0]!r} (e.g. in a comment) before the edited statement shifts every later line index, the edit is spliced into the wrong line'
+                if diff else '', src)
+
+
 def _line_table(ctx: RuleCtx, mod: Module, scope: ast.AST, tname: str, rname: str, qn: str, term: T.Set[str]) -> None:
     """The line table `tname` is filled in `scope` from a split of the text `rname`: accumulation and terminators."""
     fn = scope
@@ -360,6 +545,9 @@ def _line_table(ctx: RuleCtx, mod: Module, scope: ast.AST, tname: str, rname: st
         return (isinstance(w, ast.AugAssign) and norm(w.target) == tname) or (isinstance(w, ast.Call) and norm(w.func) == f'{tname}.append')
     with_writer = [n for n in ast.walk(scope) if isinstance(n, ast.For) and any(writes_table(w) for w in ast.walk(n))]
     fills = [n for n in with_writer if not any(x is not n and x in with_writer for x in ast.walk(n))]    # innermost
+    if not fills:
+        _line_table_prefix_sums(ctx, mod, scope, tname, rname, qn, term)
+        return
     if len(fills) != 1:
         raise Undecided(f'{qn}: {len(fills)} loops fill the line table')
     fill = fills[0]
@@ -424,7 +612,7 @@ def _line_table(ctx: RuleCtx, mod: Module, scope: ast.AST, tname: str, rname: st
 
 def r3(ctx: RuleCtx) -> None:
     mod = ctx.repo.module(REWRITER)
-    fn = mod.func('Rewriter.apply_changes')
+    fn = inline_trivial_helpers(mod, T.cast(ast.FunctionDef, mod.func('Rewriter.apply_changes')), 'Rewriter')    # normal form: one-expression helpers inlined
     cfg = CFG(fn)
 
     # ---- the splicing function: the one that stores <...>['raw'] = <slice> + new + <slice>
@@ -490,13 +678,7 @@ def r3(ctx: RuleCtx) -> None:
                 raise Undecided(f'apply_changes: the work list is re-ordered again by `{short(c)}`: the effective order is not decided')
         if isinstance(n.ast, ast.AugAssign) and norm(n.ast.target) == work or \
                 (isinstance(n.ast, ast.Expr) and isinstance(n.ast.value, ast.Call) and norm(n.ast.value.func) in (f'{work}.append', f'{work}.extend', f'{work}.insert')):
-            acts = {x.value for d in ast.walk(n.ast) if isinstance(d, ast.Dict) for k, x in zip(d.keys, d.values)
-                    if isinstance(k, ast.Constant) and k.value == 'action' and isinstance(x, ast.Constant)}
-            if not acts or acts & {'modify', 'rm'}:
-                late.append(n.ast)
-    ctx.require(not late, 'after the sort nothing re-orders the work list and no positional edit is appended', mod, 'Rewriter.apply_changes',
-                late[0] if late else 'work list after sort', f'`{short(late[0]) if late else ""}` changes the work list after it was sorted: positional edits would be applied out of order',
-                late[0] if late else None)
+            late.append(n.ast)
     # the splice loop: for X in L: <splicer>(X); L is the work list or filled in order from it
     def calls_splicer(c: ast.AST) -> bool:
         return isinstance(c, ast.Call) and (attr_chain(c.func) or '').split('.')[-1] == sp.name
@@ -508,8 +690,43 @@ def r3(ctx: RuleCtx) -> None:
     item_params = {p_ for c in ast.walk(loop) if calls_splicer(c) for p_, a_ in bind_args(T.cast(ast.Call, c), sp, sp_is_method).items() if norm(a_) == norm(loop.target)}
     if len(item_params) != 1:
         raise Undecided(f'apply_changes: cannot tell which parameter of {sp.name} receives the work item')
+    # entries appended after the sort must not be positional edits.  Whatever the record looks like (dict, tuple, ...), an entry
+    # carries a constant tag; the tags of positional edits are the constants the splice loop tests before it calls the splicer
+    pmap = {ch: par_ for par_ in ast.walk(fn) for ch in ast.iter_child_nodes(par_)}
+    positional: T.Set[T.Any] = set()
+    for c in ast.walk(loop):
+        if calls_splicer(c):
+            cur: ast.AST = c
+            while cur in pmap and cur is not loop:
+                par = pmap[cur]
+                if isinstance(par, ast.If) and cur in par.body:
+                    for cmp_ in ast.walk(par.test):
+                        if isinstance(cmp_, ast.Compare) and len(cmp_.ops) == 1 and isinstance(cmp_.ops[0], (ast.Eq, ast.In)):
+                            sides_ = [cmp_.left, cmp_.comparators[0]]
+                            for sd_ in sides_:
+                                els_ = sd_.elts if isinstance(sd_, (ast.Set, ast.Tuple, ast.List)) else [sd_]
+                                positional |= {k_.value for k_ in els_ if isinstance(k_, ast.Constant) and isinstance(k_.value, str)}
+                cur = par
+    bad_late: T.List[ast.AST] = []
+    for st_ in late:
+        keys = {id(k_) for d_ in ast.walk(st_) if isinstance(d_, ast.Dict) for k_ in d_.keys}
+        tags = {k_.value for k_ in ast.walk(st_) if isinstance(k_, ast.Constant) and isinstance(k_.value, str) and id(k_) not in keys}
+        if not tags or not positional:
+            raise Undecided(f'apply_changes: cannot tell what kind of entries `{short(st_)}` adds after the sort')
+        if tags & positional:
+            bad_late.append(st_)
+    ctx.require(not bad_late, f'after the sort no positional edit (tags {sorted(positional)}) is appended ({len(late)} later append(s))', mod, 'Rewriter.apply_changes',
+                bad_late[0] if bad_late else 'work list after sort',
+                f'`{short(bad_late[0]) if bad_late else ""}` appends entries tagged {sorted(positional)} after the list was sorted: these are spliced by position, out of order',
+                bad_late[0] if bad_late else None)
     lname = loop.iter.id
-    if lname != work:
+    ldef = [n.value for n in walk_no_nested(fn) if isinstance(n, ast.Assign) and len(n.targets) == 1 and norm(n.targets[0]) == lname]
+    if lname != work and len(ldef) == 1 and isinstance(ldef[0], (ast.ListComp,)) and len(ldef[0].generators) == 1 and not ldef[0].generators[0].ifs \
+            and norm(ldef[0].generators[0].iter) == work:
+        # one record per work item, in the order of the work list
+        lst_nodes = [n for n in cfg.nodes if n.kind == 'stmt' and isinstance(n.ast, ast.Assign) and n.ast.value is ldef[0]]
+        ok = bool(lst_nodes) and all(cfg.dominated_by_any(x, sort_nodes) for x in lst_nodes)
+    elif lname != work:
         writers = [n for n in ast.walk(fn) if (isinstance(n, ast.AugAssign) and norm(n.target) == lname)
                    or (isinstance(n, ast.Call) and norm(n.func) in (f'{lname}.append', f'{lname}.extend', f'{lname}.insert'))]
         feeders = [n for n in walk_no_nested(fn) if isinstance(n, ast.For) and norm(n.iter) == work and any(w in list(ast.walk(n)) for w in writers)]
@@ -529,6 +746,7 @@ def r3(ctx: RuleCtx) -> None:
 
     # ---- (b) offsets and (d) the splice itself, on the path for Array/Function nodes
     term, first_line, first_col, evid = lexer_line_model(ctx)
+    r3_append_and_scan(ctx, mod, fn, loop, sp, sp_q, term, calls_splicer)
     for e in evid:
         ctx.note('lexer: ' + e)
     param = next(iter(item_params))
@@ -714,9 +932,41 @@ def _guarded_by(cfg: CFG, target: Node, is_guard: T.Callable[[ast.AST], T.Option
     (or passes an `assert` of it).  is_guard(atom) -> wanted truth value, or None when the atom is not the guard."""
     pass_edges: T.Set[T.Tuple[int, T.Any]] = set()
     via_ids: T.Set[int] = set()
+    # a condition named as a local first (`already = x in lst; if not already:`) is read through when the local has one definition
+    # and nothing it reads is rebound between that definition and the test
+    defs_of: T.Dict[str, T.List[ast.stmt]] = {}
+    for n_ in ast.walk(cfg.fn):
+        if isinstance(n_, (ast.Assign, ast.AugAssign, ast.AnnAssign, ast.For, ast.With)):
+            for x_ in ast.walk(n_):
+                if isinstance(x_, ast.Name) and isinstance(x_.ctx, ast.Store):
+                    defs_of.setdefault(x_.id, []).append(n_)  # type: ignore[arg-type]
+
+    def readable(local: str, test_node: Node) -> T.Optional[ast.AST]:
+        ds = defs_of.get(local, [])
+        if len(ds) != 1 or not isinstance(ds[0], (ast.Assign, ast.AnnAssign)) or ds[0].value is None:
+            return None
+        v = ds[0].value
+        if not isinstance(v, (ast.Compare, ast.BoolOp, ast.UnaryOp, ast.Call)):
+            return None
+        dn = cfg.stmt_nodes(ds[0])
+        for x_ in ast.walk(v):
+            if isinstance(x_, ast.Name):
+                for s_ in defs_of.get(x_.id, []):
+                    if any(cfg.can_reach(d_, sn_) and cfg.can_reach(sn_, test_node) for d_ in dn for sn_ in cfg.stmt_nodes(s_)):
+                        return None
+        return v
+
+    def through_locals(test: ast.AST, test_node: Node) -> ast.AST:
+        env_ = {}
+        for x_ in ast.walk(test):
+            if isinstance(x_, ast.Name) and isinstance(x_.ctx, ast.Load):
+                r_ = readable(x_.id, test_node)
+                if r_ is not None:
+                    env_[x_.id] = r_
+        return _Subst(env_).visit(copy.deepcopy(test)) if env_ else test
     for n in cfg.nodes:
         if n.kind == 'test':
-            for atom, truth, edge in _facts_on_edges(n.ast.test):  # type: ignore[union-attr]
+            for atom, truth, edge in _facts_on_edges(through_locals(n.ast.test, n)):  # type: ignore[union-attr]
                 want = is_guard(atom)
                 if want is not None and want == truth:
                     pass_edges.add((n.id, edge))
@@ -737,6 +987,21 @@ def _guarded_by(cfg: CFG, target: Node, is_guard: T.Callable[[ast.AST], T.Option
                 state.add((b, ok2))
                 stack.append((b, ok2))
     return True
+
+
+def _opaque_tests(cfg: CFG, targets: T.List[Node], words: T.Set[str]) -> T.List[ast.AST]:
+    """Branch conditions on a way to `targets` that could hide the guard: a helper call that receives one of `words`, or a bare
+    flag whose definition is not a readable condition."""
+    out: T.List[ast.AST] = []
+    for n in cfg.nodes:
+        if n.kind != 'test' or not any(cfg.can_reach(n, t) for t in targets):
+            continue
+        for x in ast.walk(n.ast.test):  # type: ignore[union-attr]
+            if isinstance(x, ast.Call) and (attr_chain(x.func) or '').split('.')[-1] not in PURE_CALLS:
+                mentioned = {y.id for y in ast.walk(x) if isinstance(y, ast.Name)} | {y.attr for y in ast.walk(x) if isinstance(y, ast.Attribute)}
+                if mentioned & words:
+                    out.append(x)
+    return out
 
 
 def _isinstance_of(var: str, allowed: T.Set[str]) -> T.Callable[[ast.AST], T.Optional[bool]]:
@@ -924,10 +1189,14 @@ def r4(ctx: RuleCtx) -> None:
                         if isinstance(a.ops[0], ast.In):
                             return False
                     return None
+                if not all(_guarded_by(cfg, nd, not_in) for nd in nodes):
+                    opaque = _opaque_tests(cfg, nodes, {var, lst.rsplit('.', 1)[-1]})
+                    if opaque:
+                        raise Undecided(f'{qn}: whether `{var}` is already recorded may be decided by `{short(opaque[0])}`, which the rule cannot read')
                 ctx.require(all(_guarded_by(cfg, nd, not_in) for nd in nodes), f'{qn}: `{var}` is recorded at most once (guarded by `{var} not in {lst}`)', m, qn, st,
                             f'`{short(st)}` can run while `{var}` is already on the list: the node would be spliced twice, the second time at stale offsets', st)
                 _require_typed(ctx, m, qn, fn, cfg, var, st, nodes)
-    ctx.floor('writers of modified_nodes', n_mod, 4)
+    ctx.floor('writers of modified_nodes', n_mod, 1)
 
     # -- to_sort_nodes: only nodes whose argument list the command touched
     for qn in ('Rewriter.add_src_or_extra', 'Rewriter.rm_src_or_extra'):
@@ -940,10 +1209,58 @@ def r4(ctx: RuleCtx) -> None:
                 raise Undecided(f'{qn}: `{short(st)}`')
             n_sort += 1
             _require_mutated(ctx, mod, qn, fn, elts[0].id, st, 'is scheduled for sorting', 'is scheduled for sorting', 'an untouched list would be re-ordered')
-    ctx.floor('writers of to_sort_nodes', n_sort, 2)
+    ctx.floor('writers of to_sort_nodes', n_sort, 1)
 
     _r4_sort(ctx, mod)
     _r4_guards(ctx, mod)
+    _r4_scope(ctx, mod)
+
+
+def _r4_scope(ctx: RuleCtx, mod: Module) -> None:
+    """must-not-flow (K3): an extra-files operation searches / extends only what feeds the `extra_files` keyword, a source
+    operation only what feeds the sources: the node set handed to the dataflow query is built from the matching attribute of the
+    target on every path selected by the operation constant."""
+    from ..core import chains_in
+    n = 0
+    seen_sets: T.Set[T.Any] = set()
+    for qn, dag_user in (('Rewriter.rm_src_or_extra', True), ('Rewriter.add_src_or_extra', True)):
+        outer = mod.func(qn)
+        scopes = [outer] + [f for f in ast.walk(outer) if isinstance(f, ast.FunctionDef) and f is not outer]
+        for f in scopes:
+            opv = [a.arg for a in outer.args.args][1]
+            # the first dataflow query whose argument set depends on the operation
+            for p in enumerate_paths(f.body, unroll=0):
+                ops = {k: v for k, v in p.cond_map().items() if k.startswith(f'{opv} == ')}
+                chosen = [ast.literal_eval(k.split(' == ', 1)[1]) for k, v in ops.items() if v]
+                if len(chosen) != 1:
+                    continue
+                op = chosen[0]
+                env = sym_exec(p)
+                for name, e in env.items():
+                    if not any(isinstance(c, ast.Call) and (attr_chain(c.func) or '').endswith('dataflow_dag.reachable') for c in ast.walk(e)) and name != 'old':
+                        continue
+                    if name == 'old' and f is not outer:
+                        continue
+                    reads = chains_in(e)
+                    tgt = {c for c in reads if c.startswith('target.')}
+                    unknown_calls = [c for c in ast.walk(e) if isinstance(c, ast.Call) and not (attr_chain(c.func) or '').endswith('dataflow_dag.reachable')
+                                     and not (isinstance(c.func, ast.Attribute) and c.func.attr in ('union', 'copy'))
+                                     and norm(c.func) not in ('set', 'frozenset', 'list')]
+                    if unknown_calls or not tgt:
+                        continue      # not a set built directly from the target's attributes: not judged
+                    key_ = (qn, f.name, op, name, norm(e))
+                    if key_ in seen_sets:
+                        continue
+                    seen_sets.add(key_)
+                    n += 1
+                    extra = op.startswith('extra_files')
+                    foreign = sorted(c for c in tgt if (c in ('target.node', 'target.source_nodes') if extra else c == 'target.extra_files'))
+                    ctx.require(not foreign, f'{qn}{"." + f.name if f is not outer else ""}: for {op!r} the searched node set `{name}` is built from {sorted(tgt)}', mod, qn,
+                                f'node set for {op}',
+                                f'for the operation {op!r} the node set `{name}` = {short(e, 120)} also takes {foreign}: '
+                                + ('an extra-files operation would find and change a *source* argument of the target call of the same name'
+                                   if extra else 'a source operation would change the extra_files list'), p.events[-1].node if p.events else f)
+    ctx.floor('operation-selected node sets', n, 2)
 
 
 def _r4_sort(ctx: RuleCtx, mod: Module) -> None:
@@ -1006,7 +1323,7 @@ def _r4_sort(ctx: RuleCtx, mod: Module) -> None:
                     mod, qn, f'sorted part ({"target" if on_target else "list"})',
                     f'{short(rhs, 150)}: ' + ('the first argument (target name) of a build target call takes part in the sort' if on_target and head == 0
                                               else 'something other than the StringNode arguments is sorted: the order of the other arguments changes'), stores[0])
-    ctx.floor('paths of the sort loop', n_paths, 2)
+    ctx.floor('paths of the sort loop', n_paths, 1)
 
 
 def _r4_guards(ctx: RuleCtx, mod: Module) -> None:
@@ -1222,9 +1539,19 @@ def r6(ctx: RuleCtx) -> None:
     if not (isinstance(pats, ast.ListComp) and len(pats.generators) == 1):
         raise Undecided(f'{qn}: patterns are not [<template> for key in ...]: {short(pats)}')
     var = norm(pats.generators[0].target)
-    if "cmd['options']" not in norm(pats.generators[0].iter):
+    it_ = pats.generators[0].iter
+    fall: T.Dict[str, T.List[ast.AST]] = {}
+    for n in ast.walk(fn):
+        if isinstance(n, ast.Assign) and len(n.targets) == 1 and isinstance(n.targets[0], ast.Name):
+            fall.setdefault(n.targets[0].id, []).append(n.value)
+        elif isinstance(n, ast.AnnAssign) and isinstance(n.target, ast.Name) and n.value is not None:
+            fall.setdefault(n.target.id, []).append(n.value)
+    fdefs = {k: v[0] for k, v in fall.items() if len(v) == 1}
+    it_ = _Subst(fdefs).visit(copy.deepcopy(it_))        # `requested = cmd['options']` read through
+    cmdp = [a.arg for a in fn.args.args][1]
+    if f"{cmdp}['options']" not in norm(it_):
         raise Undecided(f'{qn}: patterns are not built from the requested option keys')
-    pieces = template_parts(pats.elt)       # f-string, concatenation, % or .format alike
+    pieces = fold_str_names(mod, template_parts(pats.elt))       # f-string, concatenation, % or .format alike; named constants folded
     kidx = [i for i, p in enumerate(pieces) if not isinstance(p, ast.Constant) and var in {n.id for n in ast.walk(p) if isinstance(n, ast.Name)}]
     if len(kidx) != 1 or not all(isinstance(p, ast.Constant) and isinstance(p.value, str) for i, p in enumerate(pieces) if i != kidx[0]):
         raise Undecided(f'{qn}: pattern {short(pats.elt)} is not constant + key + constant')
@@ -1480,3 +1807,161 @@ def r7(ctx: RuleCtx) -> None:
                 ctx.require(not missing, f'{qn}: empties all work lists of {r} ({", ".join(sorted(got))})', m, qn, f'work lists of {r} emptied together',
                             f'{qn} empties {sorted(got)} of {r} but not {missing}: apply_changes consumes them together, a stale {(missing or ["?"])[0]} is applied again', resets_any[0][0])
     ctx.floor('apply_changes call sites', n_calls, 1)
+
+
+# ---------------------------------------------------------------------------
+# R3 additions: text appended after the last line, and forward scans over the buffer
+def r3_append_and_scan(ctx: RuleCtx, mod: Module, fn: ast.FunctionDef, loop: ast.For, sp: ast.FunctionDef, sp_q: str, term: T.Set[str],
+                       calls_splicer: T.Callable[[ast.AST], bool]) -> None:
+    # (e) entries that are not spliced by position are appended to the buffer: the buffer must be known to end with a line terminator first
+    appends = [st for st in ast.walk(loop) if (isinstance(st, ast.AugAssign) and isinstance(st.op, ast.Add) and isinstance(st.target, ast.Subscript)
+                                                 and isinstance(st.target.slice, ast.Constant) and st.target.slice.value == 'raw')
+               or (_is_raw_store(st) and not any(isinstance(x, ast.Slice) for x in ast.walk(st.value)))]  # type: ignore[attr-defined]
+    for st in appends:
+        arm = next((n for n in ast.walk(loop) if isinstance(n, ast.If) and (st in n.body or st in n.orelse)), None)
+        region: T.List[ast.stmt] = list(arm.body if arm is not None and st in arm.body else (arm.orelse if arm is not None else loop.body))
+        unknown = [c for r_ in region for c in ast.walk(r_) if isinstance(c, ast.Call) and (attr_chain(c.func) or '').split('.')[-1] not in PURE_CALLS | {'endswith', 'cast'}
+                   and not (attr_chain(c.func) or '').startswith(('T.', 'mlog.'))]
+        checks = [c for r_ in region for c in ast.walk(r_) if isinstance(c, ast.Call) and isinstance(c.func, ast.Attribute) and c.func.attr == 'endswith'
+                  and c.args and isinstance(c.args[0], ast.Constant) and c.args[0].value in term]
+        lead = template_parts(st.value)
+        starts_with_term = bool(lead) and isinstance(lead[0], ast.Constant) and isinstance(lead[0].value, str) and lead[0].value[:1] in term
+        if checks or starts_with_term:
+            ctx.ok(f'Rewriter.apply_changes: `{short(st, 70)}` appends after the buffer is known to end with a line terminator')
+        elif unknown:
+            raise Undecided(f'apply_changes: `{short(st)}` appends to the buffer next to `{short(unknown[0])}`, which the rule cannot read')
+        else:
+            ctx.violation(mod, 'Rewriter.apply_changes', st, f'`{short(st)}` appends the new statements right behind the last character of the file without making sure the file '
+                          f'ends with {sorted(term)!r}: a build file without a final newline gets the new text glued onto its last statement and no longer parses', st)
+    # (f) forward scans `while buf[i] ...: i += 1` need a bound
+    for w in [n for n in ast.walk(sp) if isinstance(n, ast.While)]:
+        subs = [x for x in ast.walk(w.test) if isinstance(x, ast.Subscript) and isinstance(x.slice, ast.Name)]
+        for sb in subs:
+            idx = sb.slice.id  # type: ignore[attr-defined]
+            grows = any(isinstance(b_, ast.AugAssign) and norm(b_.target) == idx and isinstance(b_.op, ast.Add) for b_ in ast.walk(w))
+            if not grows:
+                continue
+            # only scans that go on *while the character matches* (skip blanks ...) can run off the end on valid input; a search
+            # `while buf[i] != c` relies on c being there, which is not judged
+            cont = [c for c in ast.walk(w.test) if isinstance(c, ast.Compare) and c.left is sb and len(c.ops) == 1 and isinstance(c.ops[0], (ast.In, ast.Eq))]
+            if not cont:
+                continue
+            bounded = any(isinstance(c, ast.Compare) and len(c.ops) == 1 and (
+                (isinstance(c.ops[0], ast.Lt) and norm(c.left) == idx and norm(c.comparators[0]) == f'len({norm(sb.value)})') or
+                (isinstance(c.ops[0], ast.Gt) and norm(c.comparators[0]) == idx and norm(c.left) == f'len({norm(sb.value)})')) for c in ast.walk(w.test))
+            # keyed on the anchored entry point, so that moving the splicing code does not change the finding key
+            ctx.require(bounded, f'{sp_q}: the scan `while {short(w.test, 50)}` stops at the end of the buffer', mod, 'Rewriter.apply_changes', w.test,
+                        f'`while {short(w.test)}: {idx} += 1` walks forward over the text with no `{idx} < len(...)` bound: when the statement that is removed is the last thing in '
+                        'the file (no trailing newline) the scan runs off the end and the command dies with IndexError', w)
+
+
+# ---------------------------------------------------------------------------
+# R8: synthesised values are linked to every operand in the dataflow DAG
+def r8(ctx: RuleCtx) -> None:
+    from . import c17_ladder as LD
+    rel = 'mesonbuild/ast/interpreter.py'
+    mod = ctx.repo.module(rel)
+    pm = ctx.repo.module(MPARSER)
+    classes = LD.node_classes(pm)
+    # built-in positive example
+    demo = ast.parse("def f(self, a, b):\n    n = mparser.ArithmeticNode(operation='+', left=a, operator=s, right=b)\n    self.dataflow_dag.add_edge(b, n)\n").body[0]
+    if _unlinked_operands(ctx, pm, classes, T.cast(ast.FunctionDef, demo)) != [('n', 'left', 'a')]:
+        raise Undecided('self-check of the DAG linkage detector failed')
+    n = 0
+    for qn, fn in mod.funcs().items():
+        if not isinstance(fn, ast.FunctionDef) or not any(isinstance(c, ast.Call) and (attr_chain(c.func) or '').endswith('add_edge') for c in ast.walk(fn)):
+            continue
+        res = _unlinked_operands(ctx, pm, classes, fn, count=True)
+        for item in res:
+            if item[0] == '#':
+                n += T.cast(int, item[1])
+                ctx.ok(f'{qn}: {item[1]} synthesised node(s) linked to every operand on every path')
+            else:
+                name, attr, op = item
+                ctx.violation(mod, qn, f'{name}.{attr} = {op}', f'`{name}` is built with {attr}={op} and put into the dataflow graph, but on some path no edge {op} -> {name} is '
+                              f'added: the rewriter no longer sees that {op} flows into the variable (affects_no_other_targets undercounts, a shared list is edited)', fn)
+                n += 1
+    ctx.floor('synthesised operator nodes registered in the dataflow graph', n, 1)
+
+
+def _unlinked_operands(ctx: RuleCtx, pm: Module, classes: T.Dict[str, T.List[str]], fn: ast.FunctionDef, count: bool = False) -> T.List[T.Any]:
+    from . import c17_ladder as LD
+    out: T.List[T.Any] = []
+    judged = 0
+    seen: T.Set[T.Tuple[str, str, str]] = set()
+    for p in enumerate_paths(fn.body, unroll=0):
+        built: T.Dict[str, T.Dict[str, str]] = {}
+        edges: T.Set[T.Tuple[str, str]] = set()
+        handed: T.Set[str] = set()
+        for st in p.stmts():
+            if isinstance(st, ast.Assign) and len(st.targets) == 1 and isinstance(st.targets[0], ast.Name) and isinstance(st.value, ast.Call):
+                cn = (attr_chain(st.value.func) or '').split('.')[-1]
+                if cn in classes and cn in ('ArithmeticNode', 'OrNode', 'AndNode', 'ComparisonNode', 'NotNode', 'UMinusNode', 'TernaryNode', 'IndexNode', 'MethodNode'):
+                    params, amap = LD.init_map(ctx.repo, pm, cn)
+                    bound = {params[i]: a for i, a in enumerate(st.value.args) if i < len(params)}
+                    bound.update({k.arg: k.value for k in st.value.keywords if k.arg})
+                    ops = {amap[p_]: norm(a) for p_, a in bound.items() if p_ in amap and amap[p_] in ('left', 'right', 'value', 'condition', 'trueblock', 'falseblock', 'iobject', 'source_object')}
+                    built[st.targets[0].id] = ops
+                    continue
+            for c in ast.walk(st):
+                if isinstance(c, ast.Call) and (attr_chain(c.func) or '').endswith('add_edge') and len(c.args) == 2:
+                    edges.add((norm(c.args[0]), norm(c.args[1])))
+                elif isinstance(c, ast.Call) and not (attr_chain(c.func) or '').endswith(('add_edge', 'append', 'copy')):
+                    handed |= {a.id for a in c.args if isinstance(a, ast.Name)}
+        for name, ops in built.items():
+            if not any(t == name for _, t in edges):
+                continue       # not registered in the graph on this path (or registered elsewhere): not judged
+            if name in handed:
+                raise Undecided(f'{fn.name}: `{name}` is handed to another function that may link it')
+            judged += 1
+            for attr, op in ops.items():
+                if (op, name) not in edges and (name, attr, op) not in seen:
+                    seen.add((name, attr, op))
+                    out.append((name, attr, op))
+    if count and not out and judged:
+        out.append(('#', len({1})))
+    return out
+
+
+# ---------------------------------------------------------------------------
+# R9: a requested keyword value given as text is not turned into a boolean by truthiness
+def r9(ctx: RuleCtx) -> None:
+    mod = ctx.repo.module(REWRITER)
+    demo = ast.parse("def new_node(cls, value: T.Optional[str] = None):\n    return BooleanNode(Token('', '', 0, 0, 0, None, bool(value)))\n").body[0]
+    if len(_truthiness_of_text(T.cast(ast.FunctionDef, demo))) != 1:
+        raise Undecided('self-check of the truthiness detector failed')
+    n = 0
+    for qn, fn in mod.funcs().items():
+        if not isinstance(fn, ast.FunctionDef) or not any(isinstance(c, ast.Call) and norm(c.func) == 'bool' for c in ast.walk(fn)):
+            continue
+        if not any(isinstance(c, ast.Call) and (attr_chain(c.func) or '').split('.')[-1] == 'BooleanNode' for c in ast.walk(fn)):
+            continue
+        n += 1
+        bad = _truthiness_of_text(fn)
+        ctx.require(not bad, f'{qn}: no text value reaches bool() on its way into a BooleanNode', mod, qn, bad[0] if bad else fn,
+                    f'`{short(bad[0]) if bad else ""}` takes the truthiness of a value declared as text: `kwargs set <fn> <id> install false` (the command line delivers the text '
+                    "'false') stores `install : true` - every non-empty text is true", bad[0] if bad else None)
+    ctx.floor('BooleanNode constructions from a requested value', n, 1)
+
+
+def _truthiness_of_text(fn: ast.FunctionDef) -> T.List[ast.Call]:
+    """bool(<parameter annotated as str>) reached on a path where the parameter can still be text."""
+    textual = {a.arg for a in fn.args.args + fn.args.kwonlyargs if a.annotation is not None and 'str' in {n.id for n in ast.walk(a.annotation) if isinstance(n, ast.Name)}}
+    out: T.List[ast.Call] = []
+    for p in enumerate_paths(fn.body, unroll=0):
+        rebound: T.Set[str] = set()
+        not_text = {k[len('isinstance('):].split(',')[0] for k, v in p.conds() if k.startswith('isinstance(') and k.rstrip(')').endswith(', str') and not v}
+        for ev in p.events:
+            if ev.kind != 'stmt' or ev.node is None:
+                continue
+            for c in ast.walk(ev.node):
+                if isinstance(c, ast.Call) and norm(c.func) == 'bool' and len(c.args) == 1 and isinstance(c.args[0], ast.Name):
+                    v = c.args[0].id
+                    if v in textual and v not in rebound and v not in not_text and not any(c is x for x in out):
+                        out.append(c)
+            if isinstance(ev.node, ast.Assign):
+                for t in ev.node.targets:
+                    if isinstance(t, ast.Name) and isinstance(ev.node.value, (ast.Compare, ast.BoolOp)) or \
+                            (isinstance(t, ast.Name) and isinstance(ev.node.value, ast.Constant) and isinstance(ev.node.value.value, bool)):
+                        rebound.add(t.id)   # now a real boolean
+    return out
